@@ -272,6 +272,14 @@ func runExchange(t *verifsim.Tape, cfg engine.Config, prop string) *engine.Outco
 		ncfg.CutRequest, ncfg.FlipRequest, ncfg.DupRequest, ncfg.DropRequest = 150, 150, 100, 50
 		ncfg.CutResponse, ncfg.FlipResponse, ncfg.WriterError = 100, 100, 100
 	}
+	dropRun := !faulty && (prop == "C02" || prop == "C04" || prop == "C14") && t.Draw("drop-run", 2) == 0
+	var curM *spec.Method
+	if dropRun {
+		// one designed element of the request is removed on the wire: the only way to see a
+		// request that lacks a required primitive, or one whose default must be injected
+		ncfg.DropElement = 350
+		ncfg.Droppable = func(loc, wire string) bool { return curM != nil && droppedAttr(d, curM, loc, wire) != nil }
+	}
 	if prop == "C08" && faulty {
 		ncfg = simnet.Config{Chunking: true, HeaderNoise: 250, RewriteRate: 500,
 			RewriteHeader: map[string][]string{"Goa-View": {"default", "tiny", "full", "extended", "nosuchview", ""}}}
@@ -474,6 +482,10 @@ func runExchange(t *verifsim.Tape, cfg engine.Config, prop string) *engine.Outco
 			goPayload = pv.Interface()
 		}
 		w.invoked, w.unhandled, w.authLog = nil, nil, nil
+		curM = m
+		if mode != "valid" {
+			curM = nil // elements are only dropped from otherwise valid requests
+		}
 		w.result, w.view, w.err = nil, viewName, scriptErr
 		if m.Result != nil && mh.Result != nil && scriptErr == nil {
 			rv, err := gen.ToGo(d, result, m.Result.Type, mh.Result)
@@ -532,6 +544,10 @@ func runExchange(t *verifsim.Tape, cfg engine.Config, prop string) *engine.Outco
 		}
 		if len(w.unhandled) > 0 && !hardFault {
 			o.Violate("response_encoding_failed", "response_encoding_failed:"+sig, "%s: the generated handler could not write its response: %v (payload %s, result %s, status %d body %q)", where, w.unhandled[0], gen.Show(payload), gen.Show(result), ex.Status, clipS(string(ex.RespBody)))
+			continue
+		}
+		if ex.DroppedLoc != "" {
+			judgeDropped(o, w, d, name, s, m, ex, payload, prop, where)
 			continue
 		}
 		if hardFault && prop != "C08" {
@@ -1483,7 +1499,7 @@ func judgeContract(o *engine.Outcome, w *world, d *spec.Design, design string, s
 	switch {
 	case docErr != nil && modelValid && strings.Contains(docErr.Error(), "doesn't match the format \"int32\"") || docErr != nil && modelValid && strings.Contains(docErr.Error(), "doesn't match the format \"int64\""):
 		o.Violate("contract_forbids_valid_request", "doc-rejects-valid:unsigned-documented-as-signed-format", "%s: the server accepts (and the design allows) this request but openapi3.json forbids it: %v\n  payload %s", where, firstLine(docErr.Error()), gen.Show(payload))
-	case docErr == nil && !modelValid && kind == spec.Map:
+	case docErr == nil && !modelValid && (kind == spec.Map || throughMap(d, m.Payload, st.Path)):
 		o.Violate("contract_promises_invalid_request", "doc-accepts-invalid:map-element-constraint", "%s: the request violates %s at %s (inside a map) but conforms to openapi3.json\n  payload %s", where, st.Rule, st.Path, gen.Show(payload))
 	case docErr != nil && modelValid:
 		o.Violate("contract_forbids_valid_request", "doc-rejects-valid:"+errClass(docErr), "%s: the server accepts (and the design allows) this request but openapi3.json forbids it: %v\n  payload %s\n  request %s", where, firstLine(docErr.Error()), gen.Show(payload), firstLineOf(ex.ReqWire))
@@ -1611,4 +1627,166 @@ func panicCause(d *spec.Design, m *spec.Method, result any, ex *simnet.Exchange)
 		}
 	}
 	return "handler_panic:" + stackClass(ex)
+}
+
+
+// ---------------------------------------------------------------------------
+// drop_element: a designed element removed from the wire
+// ---------------------------------------------------------------------------
+
+// droppedAttr maps a wire element back to the payload attribute it carries
+// (nil: not a designed, non-credential element of this method).
+func droppedAttr(d *spec.Design, m *spec.Method, loc, wire string) *spec.Attr {
+	if m.Payload == nil {
+		return nil
+	}
+	pt := d.Resolve(m.Payload.Type)
+	if pt.Kind != spec.Object {
+		return nil
+	}
+	find := func(tbl map[string]string, canon bool) *spec.Attr {
+		for a, wn := range tbl {
+			if wn == "" {
+				wn = a
+			}
+			if wn == wire || canon && http.CanonicalHeaderKey(wn) == http.CanonicalHeaderKey(wire) {
+				if f := pt.Field(a); f != nil && f.Sec == "" {
+					return f
+				}
+			}
+		}
+		return nil
+	}
+	switch loc {
+	case "query":
+		return find(m.Params, false)
+	case "header":
+		if http.CanonicalHeaderKey(wire) == "Authorization" {
+			return nil
+		}
+		return find(m.Headers, true)
+	case "cookie":
+		return find(m.Cookies, false)
+	case "body":
+		for _, f := range bodyAttrs(d, m, m.Payload, m.Headers, m.Cookies, m.Params, m.Routes[0].Path) {
+			if f.Name == wire && f.Sec == "" {
+				return f
+			}
+		}
+	}
+	return nil
+}
+
+func judgeDropped(o *engine.Outcome, w *world, d *spec.Design, design string, s *spec.Service, m *spec.Method, ex *simnet.Exchange, payload any, prop, where string) {
+	f := droppedAttr(d, m, ex.DroppedLoc, ex.DroppedName)
+	if f == nil {
+		o.Violate("harness_drop", "harness_drop", "%s: dropped %s %q which maps to no attribute", where, ex.DroppedLoc, ex.DroppedName)
+		return
+	}
+	kind := d.Resolve(f.Type).Kind
+	cls := fmt.Sprintf("loc=%s,type=%s,required=%v,default=%v", ex.DroppedLoc, kind, f.Required, f.HasDef)
+	o.Features["fault_drop_element_"+ex.DroppedLoc]++
+	p2, _ := gen.DeepCopy(payload).(map[string]any)
+	delete(p2, f.Name)
+	if c := classifyFailureAny(d, m, p2, nil, ex); c != "" {
+		o.Features["known_defect_class_in_the_way"]++
+		return
+	}
+	valid := !f.Required && len(gen.Validate(d, p2, m.Payload, "")) == 0
+	if gen.MustBeSet(d, f) && !f.Required {
+		o.Features["known_defect_class_in_the_way"]++ // optional collection with MinLength, now unset: known finding
+		return
+	}
+	if prop == "C14" {
+		if c := loadContract(design); c.err == nil {
+			docErr, _, _, _, routed := c.docVerdictRequest(ex)
+			// the document's opinion of the request as the client built it: when it already
+			// rejects that one the disagreement is not about the missing element (the ordinary
+			// request oracle reports it)
+			full := *ex
+			full.ReqWire = ex.ReqWireSent
+			if fullErr, _, _, _, ok := c.docVerdictRequest(&full); !ok || fullErr != nil {
+				o.Features["c14_drop_unjudged_document_rejects_full_request"]++
+				return
+			}
+			if routed && (docErr == nil) != valid && !(docErr != nil && strings.Contains(docErr.Error(), "security")) {
+				dir := "doc-accepts-request-missing-required"
+				if docErr != nil {
+					dir = "doc-rejects-request-missing-optional"
+				}
+				o.Violate("contract_missing_element", dir+":"+fmt.Sprintf("loc=%s,required=%v,default=%v", ex.DroppedLoc, f.Required, f.HasDef), "%s: request without %s %q (attribute %s): the design says valid=%v, openapi3.json says %v", where, ex.DroppedLoc, ex.DroppedName, f.Name, valid, errClass(docErr))
+			}
+			o.Features["c14_requests_judged"]++
+		}
+		return
+	}
+	if valid {
+		o.Features["dropped_optional"]++
+		if len(w.invoked) != 1 {
+			o.Violate("optional_element_missing_refused", "missing-optional-refused:"+cls, "%s: the request lacks the OPTIONAL %s %q (attribute %s) and was not served: status %d body %q", where, ex.DroppedLoc, ex.DroppedName, f.Name, ex.Status, clipS(string(ex.RespBody)))
+			return
+		}
+		want := gen.Expected(d, p2, m.Payload)
+		if f.HasDef {
+			o.Features["default_injected_checked"]++
+		}
+		if diff := gen.Diff(want, w.invoked[0].got, ""); diff != "" {
+			o.Violate("payload_delivery", "delivery-after-drop:"+cls, "%s: request without %s %q: %s\n  expected %s\n  received %s", where, ex.DroppedLoc, ex.DroppedName, diff, gen.Show(want), gen.Show(w.invoked[0].got))
+		}
+		return
+	}
+	o.Features["dropped_required"]++
+	if len(w.invoked) != 0 {
+		rc := reachedClass(d, m, gen.Violation{Path: "." + f.Name, Rule: "required"})
+		if rc != "validation-error-dropped-by-required-cookie" {
+			rc = "missing-required:" + cls
+		}
+		o.Violate("invalid_payload_reached_service", "reached:"+rc, "%s: the request lacks the REQUIRED %s %q (attribute %s) and the service method ran on %s", where, ex.DroppedLoc, ex.DroppedName, f.Name, gen.Show(w.invoked[0].got))
+		return
+	}
+	var er goahttp.ErrorResponse
+	if ex.Status < 400 || ex.Status > 499 || json.Unmarshal(ex.RespBody, &er) != nil || !contains(ruleErrorNames["required"], er.Name) {
+		o.Violate("invalid_error_name", "missing-required-answer:"+cls, "%s: request without the required %s %q answered with status %d body %q", where, ex.DroppedLoc, ex.DroppedName, ex.Status, clipS(string(ex.RespBody)))
+	}
+}
+
+
+// throughMap reports whether a violation path (".a.b[3].c") passes through a map.
+func throughMap(d *spec.Design, a *spec.Attr, path string) bool {
+	t := d.Resolve(a.Type)
+	for path != "" {
+		switch {
+		case path[0] == '.':
+			path = path[1:]
+			i := strings.IndexAny(path, ".[")
+			if i < 0 {
+				i = len(path)
+			}
+			if t.Kind != spec.Object {
+				return false
+			}
+			f := t.Field(path[:i])
+			if f == nil {
+				return false
+			}
+			t, path = d.Resolve(f.Type), path[i:]
+		case path[0] == '[':
+			i := strings.IndexByte(path, ']')
+			if i < 0 {
+				return false
+			}
+			switch t.Kind {
+			case spec.Map:
+				return true
+			case spec.Array:
+				t = d.Resolve(t.Elem.Type)
+			default:
+				return false
+			}
+			path = path[i+1:]
+		default:
+			return false
+		}
+	}
+	return t.Kind == spec.Map
 }
